@@ -27,6 +27,7 @@ impl<T> Clone for BTreeSet<T> { #[verifier::external_body] fn clone(&self) -> (r
 pub enum ContentEncoding { Base64 }
 impl Clone for ContentEncoding { fn clone(&self) -> (r: Self) ensures r == *self { ContentEncoding::Base64 } }
 impl Copy for ContentEncoding {}
+impl Default for ContentEncoding { fn default() -> (r: Self) ensures r == ContentEncoding::Base64 { ContentEncoding::Base64 } }   // the real type derives Default with #[default] Base64
 #[verifier::external_body] pub struct Tag { _p: u8 }
 #[verifier::external_body] pub struct TagsIter { _p: u8 }
 impl TagsIter { pub uninterp spec fn src(&self) -> Tags; }
